@@ -8,6 +8,7 @@ import (
 	"github.com/cnotch/ipchub/utils/simhook"
 	"errors"
 	"strings"
+	"sync"
 	"sync/atomic"
 	"time"
 
@@ -52,6 +53,8 @@ type Stream struct {
 	consumerSequenceSeed uint32
 	consumptions         consumptions // 消费者列表
 	cache                packCache    // 媒体包缓存
+	joinLock             sync.Mutex   // 使"缓存+广播"与新消费者的"缓存快照+注册"互斥，避免漏包或重复
+	flvJoinLock          sync.Mutex   // 同上，用于 flv 消费者
 	rtpDemuxer           rtpDemuxer
 	flvMuxer             flvMuxer
 	flvConsumptions      consumptions
@@ -210,9 +213,11 @@ func (s *Stream) WriteRtpPacket(packet *rtp.Packet) error {
 
 	atomic.AddUint64(&s.size, uint64(packet.Size()))
 
+	s.joinLock.Lock()
 	keyframe := s.cache.CachePack(packet)
 	simhook.Y("stream.writeRtp.betweenCacheAndSend")
 	s.consumptions.SendToAll(packet, keyframe)
+	s.joinLock.Unlock()
 
 	s.rtpDemuxer.WriteRtpPacket(packet)
 	return nil
@@ -238,9 +243,11 @@ func (s *Stream) WriteFlvTag(tag *flv.Tag) error {
 		return statusErrors[status]
 	}
 
+	s.flvJoinLock.Lock()
 	keyframe := s.flvCache.CachePack(tag)
 	simhook.Y("stream.writeFlv.betweenCacheAndSend")
 	s.flvConsumptions.SendToAll(tag, keyframe)
+	s.flvJoinLock.Unlock()
 	return nil
 }
 
@@ -278,17 +285,21 @@ func (s *Stream) startConsume(consumer Consumer, packetType PacketType, extra st
 
 	cs := &s.consumptions
 	cache := s.cache
+	joinLock := &s.joinLock
 	if packetType == FLVPacket {
 		cs = &s.flvConsumptions
 		cache = s.flvCache
+		joinLock = &s.flvJoinLock
 	}
 
 	simhook.Y("stream.startConsume.beforeGop")
+	joinLock.Lock()
 	if useGopCache {
 		c.sendGop(cache) // 新消费者，先发送gop缓存
 	}
 	simhook.Y("stream.startConsume.betweenGopAndAdd")
 	cs.Add(c)
+	joinLock.Unlock()
 	simhook.Y("stream.startConsume.betweenAddAndGo")
 
 	go c.consume()
